@@ -1,11 +1,11 @@
-\* bounded exhaustive configuration of Seqs.tla: Kind=list HasDtor=TRUE HasCmp=FALSE
+\* bounded exhaustive configuration of Seqs.tla: Kind=list HasDtor=TRUE HasCmp=TRUE CmpSucc=TRUE (non-reflexive comparator)
 CONSTANTS
   Kind = "list"
   Elems = {1, 2, 3}
   MaxLen = 3
   HasDtor = TRUE
-  HasCmp = FALSE
-  CmpSucc = FALSE
+  HasCmp = TRUE
+  CmpSucc = TRUE
 INIT Init
 NEXT Next
 CHECK_DEADLOCK FALSE
